@@ -1,6 +1,6 @@
 (* C19 — correspondence: what the harness observed on the implementation against the model and the specification *)
 From Coq Require Import List String ZArith Bool Ascii NArith.
-From C19 Require Import Model Spec Lex Session SessionSpec Classes.
+From C19 Require Import Model Spec Lex Session SessionSpec Classes Reload.
 Import ListNotations.
 Open Scope string_scope.
 Open Scope list_scope.
@@ -20,7 +20,14 @@ Inductive case :=
         (textsame probesame : bool)
 (* the classes section of a snapshot: the hierarchy of the session (class -> direct superclasses, in definition order)
    and the names of the defclass forms of the snapshot in the order they are written *)
-| CCase (h : hier) (written : list string).
+| CCase (h : hier) (written : list string)
+(* the defclass forms of the classes section: the hierarchy of the session and the (name, direct superclasses) of the
+   written forms, superclasses in the order written (model: Reload.class_forms; S: every class keeps its precedence) *)
+| KCase (h : hier) (written : hier)
+(* the functions section: the package that is current while the snapshot is taken, the packages (AllPackages order) with
+   the names of their functions, the in-package / definition lines of the snapshot (model: Reload.fun_section; S: loaded
+   from the package the variables section restores, every function lands in its package) *)
+| FCase (cur : string) (ps : pfuns) (lines : list fline).
 
 Definition is_unmodelled {A} (r : res A) : bool := match r with Err EUnmodelled => true | _ => false end.
 
@@ -169,6 +176,16 @@ Definition check_case (c : case) : N :=
             end) (class_order h) written
       then (if order_ok h (class_order h) then 0 else 3)%N
       else (if order_ok h written then 1 else 2)%N
+  | KCase h written =>
+      if negb (order_ok h (class_order h)) then 0%N else     (* outside C19_class_order_ok (a cycle): CCase reports it *)
+      if hier_eqb (class_forms h) written
+      then (if precedence_kept h (class_forms h) then 0 else 3)%N
+      else (if precedence_kept h written then 1 else 2)%N
+  | FCase cur ps lines =>
+      (* the variables section has set *package* to cur before the functions section is loaded *)
+      if flines_eqb (fun_section cur ps) lines
+      then (if section_restores cur cur ps lines then 0 else 3)%N
+      else (if section_restores cur cur ps lines then 1 else 2)%N
   | DCase v FNone _ _ _ => 0%N      (* nil offers no LoadForm method *)
   | DCase v form r equal texts =>
       let g := loadable v && no_inst v in
@@ -192,6 +209,8 @@ Definition check_all := check_all_from 0%N.
 Definition guarded (c : case) : bool :=
   match c with
   | CCase _ _ => true
+  | KCase h _ => order_ok h (class_order h)
+  | FCase _ _ _ => true
   | DCase v FNone _ _ _ => false
   | DCase v _ _ _ _ => loadable v && no_inst v
   | SCase hist wildtext _ _ _ _ _ _ =>
